@@ -121,6 +121,8 @@ func dbgGen(r *simrt.RNG, tier string, garbage bool) interface{} {
 	}
 	p.BreakOnStart = !p.ResumeOnly && r.Bool(0.3)
 	if !garbage && !p.ResumeOnly && r.Bool(0.15) {
+		// (not together with the C16 command mix: a client suspended as the command thread
+		// of an injected expression needs the other client to resume it)
 		p.StopAtRound = 1 + r.Intn(6)
 		p.StopAgain = r.Bool(0.5)
 	}
@@ -496,6 +498,22 @@ func dbgExec(p *dbgPlan, src string, withDebugger bool, prop string) dbgOutcome 
 		}
 		dbgCmd(dbg, prop, "status") // the debugger must still answer
 	}
+	finished := false
+	if prop == "C16" && p.Garbage && !stopped {
+		// the host shuts the processor down (as a reload does) while a client keeps
+		// asking for the lock / thread pool state
+		finished = true
+		finDone := &hbFlag{}
+		simrt.Count("fault_processor_finish_during_commands")
+		simrt.Go("finish", func() {
+			erp.Processor.Finish()
+			finDone.set()
+		})
+		for !finDone.get() {
+			dbgCmd(dbg, prop, "lockstate")
+			simrt.Yield()
+		}
+	}
 	stopClients.set()
 	clients.Wait()
 	if prop == "C16" && p.Garbage {
@@ -504,7 +522,7 @@ func dbgExec(p *dbgPlan, src string, withDebugger bool, prop string) dbgOutcome 
 		}
 	}
 	dbg.StopThreads(0)
-	if !stopped {
+	if !stopped && !finished {
 		erp.Processor.Finish()
 	} // (after a mid-run stop pool workers may have been killed with tasks still queued: nothing to join)
 	out.logs = logger.Slice()
